@@ -114,7 +114,7 @@ pub enum FaultKind {
     Error(ErrKind),
     /// read returns Ok(0)
     Eof,
-    /// write returns Ok(0) (transport contract violation; labelled probe only)
+    /// write returns Ok(0) for a non-empty buffer (the client reports WriteZero)
     WriteZero,
 }
 
